@@ -999,8 +999,12 @@ func writeEvidence(prop string, eng *engineDef, tier string, seed int64, runs, d
 		"wall_s":      wall,
 		"violations":  unknownGroups,
 	}
-	os.MkdirAll(filepath.Join(root, "evidence"), 0o755)
-	writeJSON(filepath.Join(root, "evidence", prop+".json"), ev)
+	dir := filepath.Join(root, "evidence")
+	if v := os.Getenv("VERIF_EVIDENCE_DIR"); v != "" {
+		dir = v // self-tests that run the check against a deliberately broken tree keep their output apart
+	}
+	os.MkdirAll(dir, 0o755)
+	writeJSON(filepath.Join(dir, prop+".json"), ev)
 }
 
 type meta struct {
